@@ -30,8 +30,68 @@ Fixpoint hot (p : list instr) : bool :=
   | [] => false
   | ICheck _ :: _ => false
   | IEff _ :: _ => true
+  | ICallbacks _ :: _ | IInvoke _ :: _ | IReturn _ _ _ :: _ => false
   | _ :: r => hot r
   end.
+
+(* control instructions of re-entrant consumers *)
+Definition ctl (i : instr) : bool :=
+  match i with ICallbacks _ | IInvoke _ | IReturn _ _ _ => true | _ => false end.
+
+(* what follows a consumer invocation / nested call / return never starts with an unguarded effect *)
+Fixpoint safe (p : list instr) : bool :=
+  match p with
+  | [] => true
+  | i :: r => (if ctl i then negb (hot r) else true) && safe r
+  end.
+
+(* the invocation stamps saved for the outer calls are in the past *)
+Definition saved_le (clk : nat) (i : instr) : Prop :=
+  match i with IReturn _ iv _ => iv <= clk | _ => True end.
+
+Definition plain (i : instr) : Prop := ctl i = false.
+
+Lemma hot_app_false a b : hot a = false -> hot b = false -> hot (a ++ b) = false.
+Proof.
+  intros Ha Hb. induction a as [|i a IH]; simpl; auto.
+  destruct i; simpl in *; auto; discriminate.
+Qed.
+
+Lemma safe_plain_app a b : Forall plain a -> safe (a ++ b) = safe b.
+Proof.
+  induction 1 as [|i a Hi _ IH]; simpl; auto. unfold plain in Hi. rewrite Hi. simpl. exact IH.
+Qed.
+
+Lemma safe_suffix a b : safe (a ++ b) = true -> safe b = true.
+Proof.
+  induction a as [|i a IH]; simpl; auto. intros H. apply andb_true_iff in H as [_ H]. auto.
+Qed.
+
+Lemma plain_saved clk a : Forall plain a -> Forall (saved_le clk) a.
+Proof.
+  intros H. eapply Forall_impl; [|exact H]. intros i Hi. unfold plain in Hi. destruct i; simpl; auto; discriminate.
+Qed.
+
+Lemma saved_le_mono clk clk' p : clk <= clk' -> Forall (saved_le clk) p -> Forall (saved_le clk') p.
+Proof.
+  intros Hle H. eapply Forall_impl; [|exact H]. intros i Hi. destruct i; simpl in *; auto. lia.
+Qed.
+
+Lemma skip_ret_suffix p : exists a, p = a ++ skip_ret p.
+Proof.
+  induction p as [|i p [a IH]]; [exists []; reflexivity|].
+  destruct i; simpl; try (eexists (_ :: a); simpl; f_equal; exact IH).
+  exists []. reflexivity.
+Qed.
+
+Lemma hot_skip_ret p : hot (skip_ret p) = false.
+Proof. induction p as [|i p IH]; simpl; auto. destruct i; simpl; auto. Qed.
+
+Lemma safe_invokes l p : hot p = false -> safe p = true -> safe (map IInvoke l ++ p) = true.
+Proof.
+  intros Hh Hs. induction l as [|c l IH]; simpl; auto. rewrite IH, andb_true_r.
+  destruct l; simpl; [rewrite Hh|]; reflexivity.
+Qed.
 
 Definition fill (cid : nat * nat) (now : nat) (r : orec) : orec :=
   if cid_eqb (o_call r) cid then mkO (o_call r) (o_inv r) (Some now) (o_op r) (o_ret r) else r.
@@ -88,12 +148,44 @@ Qed.
 Lemma compile_not_hot c : hot (compile c) = false.
 Proof. destruct c; reflexivity. Qed.
 
+(* a compiled call has no control instruction, except the consumer loop at the very end of an Iterate *)
+Lemma compile_shape c :
+  Forall plain (compile c) \/ exists a cb, compile c = a ++ [ICallbacks cb] /\ Forall plain a.
+Proof.
+  destruct c; cbn [compile];
+    try (left; unfold single, flush_tail; destruct (fl w); repeat constructor; fail);
+    try (left; repeat constructor; fail).
+  - left. cbn zeta. constructor; [reflexivity|]. constructor; [reflexivity|]. apply Forall_app; split.
+    + apply Forall_forall. intros i Hi. apply in_flat_map in Hi as [o [_ Hi]].
+      simpl in Hi. destruct Hi as [<-|[<-|[<-|[]]]]; reflexivity.
+    + constructor; [reflexivity|]. unfold flush_tail. destruct (fl w); repeat constructor.
+  - right. cbn zeta. eexists [_; _; _; _], cb. split; [reflexivity|]. repeat constructor.
+Qed.
+
+Lemma hot_compile_app c tl : hot tl = false -> hot (compile c ++ tl) = false.
+Proof. intros H. apply hot_app_false; [apply compile_not_hot | exact H]. Qed.
+
+Lemma safe_compile_app c ci iv r p :
+  safe (IReturn ci iv r :: p) = true -> safe (compile c ++ IReturn ci iv r :: p) = true.
+Proof.
+  intros H. destruct (compile_shape c) as [Hp|[a [cb [-> Hp]]]].
+  - rewrite safe_plain_app; auto.
+  - rewrite <- app_assoc. rewrite safe_plain_app; auto.
+Qed.
+
+Lemma saved_compile clk c : Forall (saved_le clk) (compile c).
+Proof.
+  destruct (compile_shape c) as [Hp|[a [cb [-> Hp]]]]; [apply plain_saved; exact Hp|].
+  apply Forall_app; split; [apply plain_saved; exact Hp | repeat constructor].
+Qed.
+
 (* ------------------------------------------------------------------ the invariant *)
 Definition thread_ok (clk : nat) (rs : list orec) (th : thread) : Prop :=
   cinv th <= clk /\
   (forall p, cur th = Some p -> Forall wf_instr p) /\
   (forall p, cur th = Some p -> hot p = true ->
-     forall b x, In b rs -> post b = true -> o_res b = Some x -> cinv th <= x).
+     forall b x, In b rs -> post b = true -> o_res b = Some x -> cinv th <= x) /\
+  (forall p, cur th = Some p -> safe p = true /\ Forall (saved_le clk) p).
 
 Record Inv (s : state) : Prop := mkInv {
   i_thr : forall th, In th (threads s) -> thread_ok (clock s) (recs s) th;
@@ -112,9 +204,10 @@ Lemma thread_ok_mono clk clk' rs rs' th :
      (exists b0, In b0 rs /\ post b0 = true /\ o_res b0 = Some x) \/ clk <= x) ->
   thread_ok clk' rs' th.
 Proof.
-  intros [H1 [H2 H3]] Hle Hrs. split; [lia|]. split; [exact H2|].
-  intros p Hp Hh b x Hb Hpb Hx.
-  destruct (Hrs b x Hb Hpb Hx) as [[b0 [Hb0 [Hp0 Hx0]]]|Hc]; [eapply H3; eauto | lia].
+  intros [H1 [H2 [H3 H4]]] Hle Hrs. split; [lia|]. split; [exact H2|]. split.
+  - intros p Hp Hh b x Hb Hpb Hx.
+    destruct (Hrs b x Hb Hpb Hx) as [[b0 [Hb0 [Hp0 Hx0]]]|Hc]; [eapply H3; eauto | lia].
+  - intros p Hp. destruct (H4 p Hp) as [Hs Hv]. split; [exact Hs|]. eapply saved_le_mono; eauto.
 Qed.
 
 Lemma thread_ok_app clk rs new th :
@@ -129,13 +222,15 @@ Qed.
 Lemma thread_ok_next clk rs th th' :
   thread_ok clk rs th -> cinv th' = cinv th ->
   (forall p', cur th' = Some p' ->
-     exists p, cur th = Some p /\ (Forall wf_instr p -> Forall wf_instr p') /\ (hot p' = true -> hot p = true)) ->
+     exists p, cur th = Some p /\ (Forall wf_instr p -> Forall wf_instr p') /\ (hot p' = true -> hot p = true) /\
+               (safe p = true -> safe p' = true) /\ (Forall (saved_le clk) p -> Forall (saved_le clk) p')) ->
   thread_ok clk rs th'.
 Proof.
-  intros [H1 [H2 H3]] Hc Hp. split; [lia|]. split.
+  intros [H1 [H2 [H3 H4]]] Hc Hp. split; [lia|]. split; [|split].
   - intros p' Hp'. destruct (Hp p' Hp') as [p [Hcp [Hw _]]]. apply Hw, (H2 p Hcp).
-  - intros p' Hp' Hh b x Hb Hpb Hx. destruct (Hp p' Hp') as [p [Hcp [_ Hhh]]].
+  - intros p' Hp' Hh b x Hb Hpb Hx. destruct (Hp p' Hp') as [p [Hcp [_ [Hhh _]]]].
     rewrite Hc. eapply H3; eauto.
+  - intros p' Hp'. destruct (Hp p' Hp') as [p [Hcp [_ [_ [Hs Hv]]]]]. destruct (H4 p Hcp). auto.
 Qed.
 
 Lemma no_post_when_open s b : Inv s -> closed s = false -> In b (recs s) -> post b = true -> False.
@@ -199,10 +294,10 @@ Qed.
 
 (* ---- family C: the response of a call *)
 Lemma inv_C s t th' cid extra :
-  Inv s -> cur th' = None -> cinv th' <= S (clock s) ->
+  Inv s -> thread_ok (clock s) (recs s) th' ->
   Inv (mkSt (mem s) (closed s) (upd (threads s) t th') (S (clock s)) (respond cid (clock s) (recs s)) extra).
 Proof.
-  intros I Hcur Hci. rewrite respond_fill.
+  intros I Hth'. rewrite respond_fill.
   set (f := fill cid (clock s)).
   assert (Ff : forall r, o_inv (f r) = o_inv r /\ o_op (f r) = o_op r /\ o_ret (f r) = o_ret r /\
              post (f r) = post r /\ (forall x, o_res (f r) = Some x -> x = clock s \/ o_res r = Some x))
@@ -216,12 +311,13 @@ Proof.
     - intros Hlt. pose proof (i_rinv s I a Ha). lia.
     - rewrite E. tauto. }
   constructor; simpl.
-  - intros th Hin. apply in_upd in Hin as [->|Hin].
-    + split; [exact Hci|]. split; intros p Hp; rewrite Hcur in Hp; discriminate.
-    + eapply thread_ok_mono; [apply (i_thr s I); exact Hin | lia |].
-      intros b x Hb Hp Hx. apply in_map_iff in Hb as [b0 [<- Hb0]].
-      destruct (Ff b0) as [_ [_ [_ [Hpo Hres]]]]. destruct (Hres x Hx) as [->|E]; [right; lia|].
-      left. exists b0. rewrite <- Hpo. auto.
+  - intros th Hin.
+    assert (Hsrc : thread_ok (clock s) (recs s) th).
+    { apply in_upd in Hin as [->|Hin]; [exact Hth' | apply (i_thr s I); exact Hin]. }
+    eapply thread_ok_mono; [exact Hsrc | lia |].
+    intros b x Hb Hp Hx. apply in_map_iff in Hb as [b0 [<- Hb0]].
+    destruct (Ff b0) as [_ [_ [_ [Hpo Hres]]]]. destruct (Hres x Hx) as [->|E]; [right; lia|].
+    left. exists b0. rewrite <- Hpo. auto.
   - intros r Hr. apply in_map_iff in Hr as [r0 [<- Hr0]]. destruct (Ff r0) as [-> _].
     pose proof (i_rinv s I r0 Hr0). lia.
   - eapply ordpairs_map; [apply (i_ord s I)|]. intros a b Ha Hb HR Hp. apply HR. apply Hprec; auto.
@@ -270,7 +366,7 @@ Proof. destruct l; simpl; auto. Qed.
 (* ------------------------------------------------------------------ preservation *)
 Theorem inv_step s t s' : Inv s -> step s t = Some s' -> Inv s'.
 Proof.
-  intros I H. unfold step in H.
+  intros I H. unfold step, step_with in H.
   destruct (nth_error (threads s) t) as [th|] eqn:Hth; [|discriminate].
   pose proof (i_thr s I th (nth_error_In _ _ Hth)) as Hok.
   assert (Hmono : thread_ok (S (clock s)) (recs s) th)
@@ -278,21 +374,35 @@ Proof.
   cbv zeta in H.
   destruct (cur th) as [[|i p]|] eqn:Hcur.
   - (* response *)
-    inversion H; subst; clear H. apply inv_C; [exact I | reflexivity | simpl; destruct Hok as [Hc _]; lia].
+    inversion H; subst; clear H. apply inv_C; [exact I|].
+    split; [simpl; destruct Hok as [Hc _]; exact Hc|]. split; [|split]; intros p0 Hp0; discriminate.
   - assert (Hwf : wf_instr i /\ Forall wf_instr p).
     { destruct Hok as [_ [Hw _]]. specialize (Hw _ Hcur). inversion Hw; auto. }
     destruct Hwf as [Hwi Hwp].
     assert (Hnext : forall th', cinv th' = cinv th -> cur th' = Some p ->
               (hot p = true -> hot (i :: p) = true) -> thread_ok (S (clock s)) (recs s) th').
     { intros th' Hci Hcu Hh. eapply thread_ok_next; [exact Hmono | exact Hci |].
-      intros p' Hp'. rewrite Hcu in Hp'. inversion Hp'; subst. exists (i :: p'). repeat split; auto. }
-    destruct i as [g|l w|l|o| |].
+      intros p' Hp'. rewrite Hcu in Hp'. inversion Hp'; subst. exists (i :: p'). repeat split; auto.
+      - simpl. intros Hs. apply andb_true_iff in Hs as [_ Hs]. exact Hs.
+      - intros Hs. inversion Hs; auto. }
+    assert (Hsafe : safe (i :: p) = true /\ Forall (saved_le (clock s)) (i :: p))
+      by (destruct Hok as [_ [_ [_ H4]]]; apply (H4 _ Hcur)).
+    destruct Hsafe as [Hsf Hsv].
+    assert (Hsfp : safe p = true) by (simpl in Hsf; apply andb_true_iff in Hsf as [_ Hsf]; exact Hsf).
+    assert (Hsvp : Forall (saved_le (S (clock s))) p)
+      by (eapply saved_le_mono; [|inversion Hsv; eassumption]; lia).
+    destruct i as [g|l w|l|o| | |cb|c|ci iv rr].
     + (* ICheck *)
       destruct (closed s) eqn:Hcl; inversion H; subst; clear H.
       * destruct (closed_recs_post (t, cidx th) (cinv th) g) as [E1 E2].
         apply inv_B; [exact I | | | | | | | ].
-        -- split; [destruct Hok; simpl; lia|].
-           split; intros p0 Hp0; simpl in Hp0; inversion Hp0; subst; [constructor | discriminate].
+        -- destruct (skip_ret_suffix p) as [pre0 Hsuf].
+           split; [destruct Hok; simpl; lia|].
+           split; [|split]; intros p0 Hp0; simpl in Hp0; inversion Hp0; subst.
+           ++ rewrite Hsuf in Hwp. apply Forall_app in Hwp as [_ Hwp]. exact Hwp.
+           ++ rewrite hot_skip_ret. discriminate.
+           ++ split; [rewrite Hsuf in Hsfp; eapply safe_suffix; exact Hsfp|].
+              rewrite Hsuf in Hsvp. apply Forall_app in Hsvp as [_ Hsvp]. exact Hsvp.
         -- intros r Hr. apply in_map_iff in Hr as [o [<- _]]. simpl. destruct Hok. split; auto.
         -- rewrite E1. reflexivity.
         -- discriminate.
@@ -301,9 +411,10 @@ Proof.
            simpl in Hwi. rewrite Forall_forall in Hwi. specialize (Hwi _ Hg). discriminate.
         -- intros a b x Ha Hpa. apply in_map_iff in Ha as [o [<- _]].
            unfold post in Hpa; simpl in Hpa. destruct o; discriminate.
-      * (apply inv_A; [exact I|]). destruct Hmono as [M1 [M2 M3]]. split; [simpl; exact M1|]. split.
+      * (apply inv_A; [exact I|]). destruct Hmono as [M1 [M2 [M3 M4]]]. split; [simpl; exact M1|]. split; [|split].
         -- intros p0 Hp0; simpl in Hp0; inversion Hp0; subst; exact Hwp.
         -- intros p0 Hp0 _ b x Hb Hpb _. exfalso. eapply no_post_when_open; eauto.
+        -- intros p0 Hp0; simpl in Hp0; inversion Hp0; subst. auto.
     + (* IAcq *)
       destruct w.
       * destruct (can_lock (threads s) l); [|destruct (ww th); [discriminate|]];
@@ -311,7 +422,7 @@ Proof.
         -- apply Hnext; simpl; auto. destruct l; reflexivity.
         -- eapply thread_ok_next; [exact Hmono | reflexivity |].
            intros p' Hp'. simpl in Hp'. rewrite Hcur in Hp'. inversion Hp'; subst.
-           exists (IAcq l true :: p). auto.
+           exists (IAcq l true :: p). repeat split; auto.
       * destruct (can_rlock (threads s) l); [|discriminate].
         inversion H; subst; clear H; (apply inv_A; [exact I|]). apply Hnext; simpl; auto. destruct l; reflexivity.
     + (* IRel *)
@@ -352,11 +463,38 @@ Proof.
       * intros _. right. eexists; eexists; split; reflexivity.
       * intros b [<-|[]] _; reflexivity.
       * intros a b x [<-|[]] Hpa; discriminate.
+    + (* ICallbacks: the consumer's calls are spliced in; nothing is held, nothing is hot *)
+      assert (Hhp : hot p = false) by (simpl in Hsf; apply andb_true_iff in Hsf as [Hsf _]; apply negb_true_iff; exact Hsf).
+      inversion H; subst; clear H; (apply inv_A; [exact I|]).
+      destruct Hmono as [M1 _]. split; [simpl; exact M1|]. split; [|split]; intros p0 Hp0; simpl in Hp0; inversion Hp0; subst.
+      * apply Forall_app; split; [|exact Hwp]. apply Forall_forall. intros i Hi. apply in_map_iff in Hi as [c [<- _]]. exact Logic.I.
+      * intros Hh. exfalso. destruct (cb_calls (cres th) cb); simpl in Hh; [rewrite Hhp in Hh|]; discriminate.
+      * split; [apply safe_invokes; auto|]. apply Forall_app; split; [|exact Hsvp].
+        apply Forall_forall. intros i Hi. apply in_map_iff in Hi as [c [<- _]]. exact Logic.I.
+    + (* IInvoke: a nested call starts like a top-level one; the outer call's stamp is saved *)
+      assert (Hhp : hot p = false) by (simpl in Hsf; apply andb_true_iff in Hsf as [Hsf _]; apply negb_true_iff; exact Hsf).
+      inversion H; subst; clear H; (apply inv_A; [exact I|]).
+      split; [simpl; lia|]. split; [|split]; intros p0 Hp0; simpl in Hp0; inversion Hp0; subst.
+      * apply Forall_app; split; [apply compile_wf|]. constructor; [exact Logic.I | exact Hwp].
+      * rewrite hot_compile_app; [discriminate | reflexivity].
+      * split; [apply safe_compile_app; simpl; rewrite Hhp, Hsfp; reflexivity|].
+        apply Forall_app; split; [apply saved_compile|]. constructor; [|exact Hsvp].
+        simpl. destruct Hok as [Hc _]. lia.
+    + (* IReturn: response of the nested call, the outer call resumes *)
+      assert (Hhp : hot p = false) by (simpl in Hsf; apply andb_true_iff in Hsf as [Hsf _]; apply negb_true_iff; exact Hsf).
+      inversion H; subst; clear H. apply inv_C; [exact I|].
+      split; [simpl; inversion Hsv; assumption|]. split; [|split]; intros p0 Hp0; simpl in Hp0; inversion Hp0; subst.
+      * exact Hwp.
+      * intros Hh. rewrite Hhp in Hh. discriminate.
+      * split; [exact Hsfp | inversion Hsv; assumption].
   - (* invocation *)
     destruct (script th) as [|c sc]; [discriminate|]. inversion H; subst; clear H. (apply inv_A; [exact I|]).
-    split; [simpl; lia|]. split; intros p0 Hp0; simpl in Hp0; inversion Hp0; subst.
+    split; [simpl; lia|]. split; [|split]; intros p0 Hp0; simpl in Hp0; inversion Hp0; subst.
     + apply compile_wf.
     + rewrite compile_not_hot; discriminate.
+    + split; [|apply saved_compile]. destruct (compile_shape c) as [Hpl|[a [cb [-> Hpl]]]].
+      * rewrite <- (app_nil_r (compile c)). rewrite safe_plain_app; auto.
+      * rewrite safe_plain_app; auto.
 Qed.
 
 (* ------------------------------------------------------------------ all schedules *)
@@ -364,7 +502,7 @@ Lemma inv_init scripts : Inv (init scripts).
 Proof.
   constructor; simpl; auto; try (intros ? []; fail); try (intros ? ? []; fail); try discriminate.
   intros th Hin. apply in_map_iff in Hin as [sc [<- _]]. split; simpl; [lia|].
-  split; intros p Hp; discriminate.
+  split; [|split]; intros p Hp; discriminate.
 Qed.
 
 Lemma inv_step' s t : Inv s -> Inv (step' s t).
@@ -451,10 +589,10 @@ Lemma step_emits s t s' :
     (exists r0, In r0 (recs s) /\ rel_from (clock s) r0 r') \/
     (o_res r' = None /\ o_inv r' < clock s /\ outcome s r').
 Proof.
-  intros I T H. unfold step in H.
+  intros I T H. unfold step, step_with in H.
   destruct (nth_error (threads s) t) as [th|] eqn:Hth; [|discriminate].
   pose proof (nth_error_In _ _ Hth) as Hin.
-  pose proof (i_thr s I th Hin) as [_ [Hwf _]].
+  pose proof (i_thr s I th Hin) as [_ [Hwf [_ Hsv]]].
   assert (Told : forall th0, In th0 (threads s) -> cur th0 <> None -> cinv th0 < S (clock s))
     by (intros th0 H0 H1; specialize (T th0 H0 H1); lia).
   assert (Tupd : forall th', (cur th' <> None -> cinv th' < S (clock s)) ->
@@ -475,12 +613,13 @@ Proof.
       * unfold fill in Ex. destruct (cid_eqb _ _); [discriminate | left; congruence].
   - assert (Hci : cinv th < clock s) by (apply T; [exact Hin | congruence]).
     specialize (Hwf _ eq_refl). inversion Hwf as [|? ? Hwi Hwp]; subst.
+    destruct (Hsv _ eq_refl) as [_ Hsv'].
     assert (Hnew : forall o r, outcome s (mkO (t, cidx th) (cinv th) None o r) ->
               forall r', In r' (recs s ++ [mkO (t, cidx th) (cinv th) None o r]) ->
               (exists r0, In r0 (recs s) /\ rel_from (clock s) r0 r') \/
               (o_res r' = None /\ o_inv r' < clock s /\ outcome s r')).
     { intros o r Ho r' Hr. apply in_app_or in Hr as [Hr|[<-|[]]]; auto. }
-    destruct i as [g|l w|l|o| |].
+    destruct i as [g|l w|l|o| | |cb|c|ci iv rr].
     + destruct (closed s) eqn:Hcl; inversion H; subst; clear H; simpl;
         (split; [(unfold Tinv; simpl; apply Tupd); simpl; intros _; lia | split; [reflexivity|]]); auto.
       intros r' Hr. apply in_app_or in Hr as [Hr|Hr]; auto.
@@ -507,6 +646,20 @@ Proof.
     + inversion H; subst; clear H; simpl.
       split; [(unfold Tinv; simpl; apply Tupd); simpl; intros _; lia | split; [reflexivity|]].
       apply Hnew. left. reflexivity.
+    + (* ICallbacks *)
+      inversion H; subst; clear H; simpl.
+      split; [(unfold Tinv; simpl; apply Tupd); simpl; intros _; lia | split; [reflexivity|]]. auto.
+    + (* IInvoke *)
+      inversion H; subst; clear H; simpl.
+      split; [(unfold Tinv; simpl; apply Tupd); simpl; intros _; lia | split; [reflexivity|]]. auto.
+    + (* IReturn *)
+      inversion H; subst; clear H. simpl. split; [|split; [reflexivity|]].
+      * (unfold Tinv; simpl; apply Tupd). simpl. intros _. inversion Hsv'; subst. simpl in *. lia.
+      * intros r' Hr. left. rewrite respond_fill in Hr. apply in_map_iff in Hr as [r0 [<- Hr0]].
+        exists r0. split; auto. destruct (fill_facts (t, cidx th) (clock s) r0) as [F1 [F2 [F3 [_ F5]]]].
+        repeat split; auto. destruct (o_res (fill (t, cidx th) (clock s) r0)) as [x|] eqn:Ex.
+        -- destruct (F5 x eq_refl) as [->|E]; [right; exists (clock s); auto | left; congruence].
+        -- unfold fill in Ex. destruct (cid_eqb _ _); [discriminate | left; congruence].
   - destruct (script th) as [|c sc]; [discriminate|]. inversion H; subst; clear H. simpl.
     split; [(unfold Tinv; simpl; apply Tupd); simpl; intros _; lia | split; [reflexivity|]]. auto.
 Qed.
